@@ -45,6 +45,10 @@ func kdfBy4(baseMD *digest, keyLen int, limit int) []byte {
 		t = 64 + 56 - remainlen
 		blocks = 2
 	}
+	if baseMD.nx+4 >= BlockSize {
+		// remaining data + counter already fill the first block, padding and length need a second one
+		blocks = 2
+	}
 	len <<= 3
 	// prepare temporary buffer
 	tmpStart := parallelSize4 * blocks * BlockSize
